@@ -24,18 +24,38 @@ import (
 	"verifharness/kit"
 )
 
+// gz / gs: literals without scope annotations (the case files open Z_scope and string_scope; constructor
+// arguments carry their own scopes). Parsing dominates the Coq side of the check, so size matters.
+func gz(z int64) string {
+	if z < 0 {
+		return fmt.Sprintf("(%d)", z)
+	}
+	return fmt.Sprint(z)
+}
+
+func gs(s string) string {
+	for i := 0; i < len(s); i++ {
+		if s[i] < 32 || s[i] > 126 {
+			panic(fmt.Sprintf("gs: non printable byte in %q", s))
+		}
+	}
+	return "\"" + strings.ReplaceAll(s, "\"", "\"\"") + "\""
+}
+
+func gstrs(xs []string) string { return kit.GListOf(xs, gs) }
+
 func gOptZ(p *int) string {
 	if p == nil {
 		return "None"
 	}
-	return "(Some " + kit.GZ(int64(*p)) + ")"
+	return "(Some " + gz(int64(*p)) + ")"
 }
 
 func gOptStr(s string) string {
 	if s == "" {
 		return "None"
 	}
-	return "(Some " + kit.GStr(s) + ")"
+	return "(Some " + gs(s) + ")"
 }
 
 // units converts a float price into 2^-10 units; the generators only produce such values.
@@ -51,14 +71,14 @@ func gPrice(p float64) string {
 	if p == math.MaxFloat64 {
 		return "None"
 	}
-	return "(Some " + kit.GZ(units(p)) + ")"
+	return "(Some " + gz(units(p)) + ")"
 }
 
 func gReq(r *scheduling.Requirement) string {
 	compl, gte, lte, _ := r.VerifInternals()
 	vals := append([]string(nil), r.Values()...)
 	sort.Strings(vals)
-	return fmt.Sprintf("(mkReq %s %s %s %s %s)", kit.GBool(compl), kit.GStrs(vals), gOptZ(gte), gOptZ(lte), gOptZ(r.MinValues))
+	return fmt.Sprintf("(mkReq %s %s %s %s %s)", kit.GBool(compl), gstrs(vals), gOptZ(gte), gOptZ(lte), gOptZ(r.MinValues))
 }
 
 // relevantKeys: the keys of a requirement map the model reads (those an offering can carry, and those with minValues).
@@ -75,7 +95,7 @@ func relevantKeys(r scheduling.Requirements) []string {
 
 func gReqs(r scheduling.Requirements) string {
 	ks := relevantKeys(r)
-	return kit.GListOf(ks, func(k string) string { return kit.GPair(kit.GStr(k), gReq(r[k])) })
+	return kit.GListOf(ks, func(k string) string { return kit.GPair(gs(k), gReq(r[k])) })
 }
 
 // otherKeys renders the requirements the model does not read, to check that the code under test leaves them alone.
@@ -128,7 +148,7 @@ func offeringShape(o *cloudprovider.Offering) (ct, zone, rid string) {
 
 func gOffering(o *cloudprovider.Offering) string {
 	ct, zone, rid := offeringShape(o)
-	return fmt.Sprintf("(mkOff %s %s %s %s %s)", kit.GStr(ct), kit.GStr(zone), gOptStr(rid), kit.GZ(units(o.Price)), kit.GBool(o.Available))
+	return fmt.Sprintf("(mkOff %s %s %s %s %s)", gs(ct), gs(zone), gOptStr(rid), gz(units(o.Price)), kit.GBool(o.Available))
 }
 
 func gOfferings(ofs cloudprovider.Offerings) string {
@@ -139,9 +159,9 @@ func gInstanceType(it *cloudprovider.InstanceType, mk []string) string {
 	vals := kit.GListOf(mk, func(k string) string {
 		vs := append([]string(nil), it.Requirements.Get(k).Values()...)
 		sort.Strings(vs)
-		return kit.GPair(kit.GStr(k), kit.GStrs(vs))
+		return kit.GPair(gs(k), gstrs(vs))
 	})
-	return fmt.Sprintf("(mkIT %s %s %s)", kit.GStr(it.Name), gOfferings(it.Offerings), vals)
+	return fmt.Sprintf("(mkIT %s %s %s)", gs(it.Name), gOfferings(it.Offerings), vals)
 }
 
 func (w *world) gCatalog(mk []string) string {
@@ -165,10 +185,10 @@ func (w *world) gCand(c *disruption.Candidate) string {
 	}
 	costs := make([]string, 0, len(pods))
 	for _, p := range pods {
-		costs = append(costs, kit.GZ(evictionUnits(disruptionutils.EvictionCost(w.ctx, p))))
+		costs = append(costs, gz(evictionUnits(disruptionutils.EvictionCost(w.ctx, p))))
 	}
-	return fmt.Sprintf("(mkCC %s %s %s %s %s %s %s)", kit.GStr(c.Name()), kit.GStr(name), kit.GStr(ct), kit.GStr(zone),
-		gOptStr(c.Labels()[cloudprovider.ReservationIDLabel]), kit.GList(costs), kit.GZ(units(c.Price)))
+	return fmt.Sprintf("(mkCC %s %s %s %s %s %s %s)", gs(c.Name()), gs(name), gs(ct), gs(zone),
+		gOptStr(c.Labels()[cloudprovider.ReservationIDLabel]), kit.GList(costs), gz(units(c.Price)))
 }
 
 func (w *world) gCands(cs []*disruption.Candidate) string {
@@ -205,7 +225,7 @@ func (w *world) project(res pscheduling.Results, candNames map[string]bool) (str
 	placed := map[*corev1.Pod]string{}
 	for _, n := range res.ExistingNodes {
 		for _, p := range n.Pods {
-			placed[p] = fmt.Sprintf("(PExisting %s %s)", kit.GStr(n.Name()), kit.GBool(n.Initialized()))
+			placed[p] = fmt.Sprintf("(PExisting %s %s)", gs(n.Name()), kit.GBool(n.Initialized()))
 		}
 	}
 	for i, nc := range res.NewNodeClaims {
@@ -246,7 +266,7 @@ func (w *world) project(res pscheduling.Results, candNames map[string]bool) (str
 	}
 	sort.Slice(out, func(i, j int) bool { return out[i].id < out[j].id })
 	return kit.GListOf(out, func(p placement) string {
-		return fmt.Sprintf("(mkPP %s %s %s)", kit.GZ(int64(p.id)), p.origin, p.where)
+		return fmt.Sprintf("(mkPP %s %s %s)", gz(int64(p.id)), p.origin, p.where)
 	}), problems
 }
 
@@ -254,7 +274,7 @@ func (w *world) project(res pscheduling.Results, candNames map[string]bool) (str
 func (w *world) gSim(res pscheduling.Results, candNames map[string]bool) (string, []string) {
 	pods, problems := w.project(res, candNames)
 	ncs := kit.GListOf(res.NewNodeClaims, func(nc *pscheduling.NodeClaim) string {
-		return kit.GPair(gReqs(nc.Requirements), kit.GStrs(itNames(nc.InstanceTypeOptions)))
+		return kit.GPair(gReqs(nc.Requirements), gstrs(itNames(nc.InstanceTypeOptions)))
 	})
 	return fmt.Sprintf("(mkCS %s %s)", pods, ncs), problems
 }
@@ -287,7 +307,7 @@ func (w *world) expectedPods(cs []*disruption.Candidate) string {
 		}
 	}
 	sort.Ints(ids)
-	return kit.GListOf(ids, func(i int) string { return kit.GZ(int64(i)) })
+	return kit.GListOf(ids, func(i int) string { return gz(int64(i)) })
 }
 
 // gObs renders a command as the observation the oracle and the correspondence check read.
@@ -306,7 +326,7 @@ func (w *world) gObs(cmd disruption.Command, cs []*disruption.Candidate) (string
 			problems = append(problems, fmt.Sprintf("command carries %d replacements", len(cmd.Replacements)))
 		}
 		r := cmd.Replacements[0]
-		oc = fmt.Sprintf("(OReplace %s %s)", gReqs(r.Requirements), kit.GStrs(itNames(r.InstanceTypeOptions)))
+		oc = fmt.Sprintf("(OReplace %s %s)", gReqs(r.Requirements), gstrs(itNames(r.InstanceTypeOptions)))
 	}
 	if cmd.Decision() != disruption.NoOpDecision {
 		got := names(cmd.Candidates)
